@@ -41,8 +41,10 @@ func init() {
 	wrap("C04", c04R11, "R11 (added, F-C04-1): DNS64 chooses between the SOA-derived negative TTL and the 600 s no-SOA ceiling on the presence of the SOA, never on the TTL's value — negativeAAAATTL reports absence out of band (constant presence flag, true only across the SOA found-edge) and no caller zero-tests the TTL it returns.")
 }
 
-func c04R11(c *Ctx) {
-	const R = "C04-R11"
+func c04R11(c *Ctx) { c04R11as(c, "C04-R11") }
+
+// c04R11as runs the rule under the given rule id (the clause is claimed by two properties).
+func c04R11as(c *Ctx, R string) {
 	const path = "middleware/dns64.negativeAAAATTL"
 	c.Doc(R, "DNS64 (RFC 6147 §5.1.7): the SOA-derived negative TTL bounds the synthesised AAAA whenever an SOA is present, zero included — (a) negativeAAAATTL does not encode 'no SOA' as an integer constant when the integer is its only result, (b) its boolean result is a constant at every return and true only across the rr.(*dns.SOA) found-edge, (c) no call site compares the returned TTL with the constants 0/1 (a zero-test re-reads the TTL as a presence flag and swaps the shortest bound there is for the 600 s ceiling)")
 	fn := c.fn(R, path)
